@@ -111,7 +111,7 @@ def cli_sample(bins, pid, tier, seed):
     from concurrent.futures import ThreadPoolExecutor
     import fixture, runlib
     n = {"quick": 14, "thorough": 160}[tier]
-    names = ["app", "app2", "app-web", "lib", "lib2", "core", "app/api", "app/api/v2", "lib/net"]
+    names = ["app", "app2", "app-web", "lib", "lib2", "liblib", "core", "app/api", "app/api/v2", "lib/net"]
     def one(i):
         rng = random.Random(seed * 977 + i)
         paths = rng.sample(names, rng.randint(3, 7))
